@@ -62,7 +62,7 @@ def bounds(tier):
     return {
         "quick": {
             "views": {"max_parent_len": 3, "depth": 2, "steps": [1, 2, -1, -2], "offsets": [0, 3]},
-            "alignments": {"rows": 2, "deep_len": 2, "deep_depth": 2, "shallow_len": 3, "shallow_depth": 1, "moltypes": ["dna"], "ops": "views"},
+            "alignments": {"rows": 2, "deep_len": 2, "deep_depth": 2, "shallow_len": 3, "shallow_depth": 0, "moltypes": ["dna"], "ops": "views"},
             "new_collections": {"max_len": 3, "depth": 2},
             "annotated": {"L": 4, "depth": 2, "steps": [1, 2], "offsets": [0, 3], "aln_len": 3},
             "annotation_dbs": {"depth": 1},
@@ -90,7 +90,7 @@ def plain(x, depth=0):
     """comparison-stable, JSON-able normal form of an observed value"""
     import numpy
 
-    if depth > 8:
+    if depth > 60:
         return repr(x)
     if x is None or isinstance(x, (bool, int, str)):
         return x
@@ -112,6 +112,8 @@ def plain(x, depth=0):
 
 
 def same(a, b, tol=None):
+    if callable(tol):
+        return tol(a, b)
     if isinstance(a, float) or isinstance(b, float):
         if isinstance(a, bool) or isinstance(b, bool) or not isinstance(a, (int, float)) or not isinstance(b, (int, float)):
             return False
@@ -549,10 +551,1381 @@ def alns_replay(case, acc):
     check_aln_state(aln, m, {"part": "alignments", "mol": mol, "rows": case["rows"]}, case["history"], acc)
 
 
+# ============================================================================= part: new-style SequenceCollection (own small K1)
+COLL_SEQS = {"s1": "ACRM", "s2": "TGYK", "s3": "BDAC"}
+
+
+def _rc(s, mol):
+    return c1.rc_string(s, mol)
+
+
+def coll_model_apply(model, op):
+    mol, rows = model
+    k = op[0]
+    if k == "rc":
+        return (mol, tuple((n, _rc(s, mol)) for n, s in rows))
+    if k == "take_seqs":
+        names = list(op[1])
+        if op[2]:
+            names = [n for n, _ in rows if n not in set(op[1])]
+        d = dict(rows)
+        return (mol, tuple((n, d[n]) for n in names))
+    if k == "rename":
+        return (mol, tuple((n.upper(), s) for n, s in rows))
+    if k in ("to_rna", "to_dna"):
+        new = k[3:]
+        tr = str.maketrans("TU", "UT") if new != mol else {}
+        return (new, tuple((n, s.translate(tr)) for n, s in rows))
+    if k == "add_seqs":
+        return (mol, rows + (("zz", "AC" if mol == "dna" else "AC"),))
+    if k == "degap":
+        return (mol, tuple((n, s.replace("-", "")) for n, s in rows))
+    raise ValueError(op)
+
+
+def coll_real_apply(c, op):
+    k = op[0]
+    if k == "rc":
+        return c.rc()
+    if k == "take_seqs":
+        return c.take_seqs(list(op[1]), negate=op[2])
+    if k == "rename":
+        return c.rename_seqs(lambda n: n.upper())
+    if k == "to_rna":
+        return c.to_rna()
+    if k == "to_dna":
+        return c.to_dna()
+    if k == "add_seqs":
+        return c.add_seqs({"zz": "AC"})
+    if k == "degap":
+        return c.degap()
+    raise ValueError(op)
+
+
+def coll_ops(model):
+    names = [n for n, _ in model[1]]
+    ops = [("rc",), ("to_rna",), ("to_dna",), ("degap",)]
+    if all(n == n.lower() for n in names):
+        ops.append(("rename",))
+    if "zz" not in [n.lower() for n in names]:
+        ops.append(("add_seqs",))
+    for r in range(1, len(names) + 1):
+        for sub in itertools.permutations(names, r):
+            if len(sub) < len(names) or list(sub) != names:
+                ops.append(("take_seqs", sub, False))
+    for n in names:
+        if len(names) > 1:
+            ops.append(("take_seqs", (n,), True))
+    return ops
+
+
+def coll_key(c):
+    sd = c.seqs
+    parts = [type(c).__name__, c.moltype.label, tuple(c.names)]
+    for n in c.names:
+        parts.append(c1.view_record(c.seqs[n]))
+    parts.append(repr(getattr(sd, "reversed", None)))
+    return tuple(parts)
+
+
+def coll_rows(c):
+    d = c.to_dict()
+    return tuple((n, str(d[n])) for n in c.names)
+
+
+def check_coll_state(c, model, case, acc):
+    hist = case["history"]
+    klass = "as constructed" if not hist else "after " + "/".join(sorted({op[0] for op in hist}))
+    check_roundtrips(acc, "new-style SequenceCollection", klass, c, observe_coll, case, nontrivial=bool(hist))
+
+
+def newcoll_explore(spec, acc):
+    from cogent3 import make_unaligned_seqs
+
+    L, nseqs, depth = spec["L"], spec["nseqs"], spec["depth"]
+    data = {n: (s[:L] if i != 1 else s[: max(1, L - 1)]) for i, (n, s) in enumerate(list(COLL_SEQS.items())[:nseqs])}
+    if spec.get("gapped"):
+        data = {n: s[:1] + "-" + s[1:] for n, s in data.items()}
+    c0 = make_unaligned_seqs(dict(data), moltype="dna", new_type=True, info={"k": "v"})
+    model0 = ("dna", tuple(data.items()))
+    base = {"part": "new_collections", "L": L, "nseqs": nseqs, "gapped": bool(spec.get("gapped"))}
+    seen = {(coll_key(c0), model0)}
+    acc.state(0)
+    check_coll_state(c0, model0, dict(base, history=[]), acc)
+    frontier = [(c0, model0, [])]
+    for d in range(1, depth + 1):
+        nxt = []
+        for c, model, hist in frontier:
+            for op in coll_ops(model):
+                acc.transitions += 1
+                m2 = coll_model_apply(model, op)
+                try:
+                    c2 = coll_real_apply(c, op)
+                    ok = coll_rows(c2) == m2[1] and c2.moltype.label == m2[0]
+                except Exception:  # noqa: BLE001
+                    ok = False
+                if not ok:
+                    acc.count("states_not_entered_owning_property_disagrees")
+                    continue
+                k = (coll_key(c2), m2)
+                if k in seen:
+                    continue
+                seen.add(k)
+                acc.state(d)
+                h2 = hist + [[list(x) if isinstance(x, tuple) else x for x in op]]
+                check_coll_state(c2, m2, dict(base, history=h2), acc)
+                if d < depth:
+                    nxt.append((c2, m2, h2))
+        frontier = nxt
+    acc.sample({"part": "new_collections", "seqs": data, "depth": depth, "states": len(seen)}, "new_collections")
+
+
+def newcoll_shards(b):
+    out = []
+    for L in range(1, b["max_len"] + 1):
+        for nseqs in (1, 2, 3):
+            for gapped in (False, True):
+                if gapped and L < 2:
+                    continue
+                out.append({"part": "new_collections", "L": L, "nseqs": nseqs, "depth": b["depth"], "gapped": gapped})
+    return out
+
+
+def newcoll_replay(case, acc):
+    from cogent3 import make_unaligned_seqs
+
+    L, nseqs = case["L"], case["nseqs"]
+    data = {n: (s[:L] if i != 1 else s[: max(1, L - 1)]) for i, (n, s) in enumerate(list(COLL_SEQS.items())[:nseqs])}
+    if case.get("gapped"):
+        data = {n: s[:1] + "-" + s[1:] for n, s in data.items()}
+    c = make_unaligned_seqs(dict(data), moltype="dna", new_type=True, info={"k": "v"})
+    model = ("dna", tuple(data.items()))
+    for op in case["history"]:
+        op = tuple(tuple(x) if isinstance(x, list) else x for x in op)
+        model = coll_model_apply(model, op)
+        c = coll_real_apply(c, op)
+    check_coll_state(c, model, {k: case[k] for k in ("part", "L", "nseqs", "gapped", "history")}, acc)
+
+
+# ============================================================================= part: annotated sequences / alignments (C04 state graph)
+from vf.props import c04_annotations as c4  # noqa: E402
+
+
+def feature_obs(x, on_alignment=None):
+    kw = {"biotype": "gene", "allow_partial": True}
+    if on_alignment is not None:
+        kw["on_alignment"] = on_alignment
+    out = []
+    for f in x.get_features(**kw):
+        try:
+            sl = f.get_slice()
+            sl = {n: str(v) for n, v in sl.to_dict().items()} if hasattr(sl, "to_dict") and hasattr(sl, "names") else str(sl)
+        except Exception as e:  # noqa: BLE001
+            sl = {"raised": type(e).__name__}
+        out.append([f.name, f.biotype, bool(getattr(f, "reversed", False)), str(f.map), sl])
+    return sorted(out, key=repr)
+
+
+def observe_annotated(impl, with_features_in_dicts):
+    def f(x, ch):
+        o = Obs()
+        o.add("class", lambda: type(x).__name__)
+        o.add("str", lambda: str(x))
+        o.add("name", lambda: x.name)
+        if len(str(x)):
+            o.add("parent_coordinates", lambda: coords_of(x))
+        if with_features_in_dicts or ch not in DICT_FAMILY:
+            o.add("features (name, biotype, reversed, map, slice)", lambda: feature_obs(x))
+            o.add("number of db records", lambda: len(x.annotation_db) if x.annotation_db is not None else 0)
+        return o
+
+    return f
+
+
+def annot_view_class(v, attach):
+    f = ["reversed view" if v.rev else ("whole parent, forward" if len(v.idx) == c4_len(v) else "sliced, forward")]
+    f.append("features via " + attach)
+    return ", ".join(f)
+
+
+def c4_len(v):
+    return getattr(v, "_plen", len(v.idx))
+
+
+def check_annot_state(seq, v, impl, attach, case, acc):
+    cls = ("reversed view" if v.rev else ("sliced or strided view" if case["history"] else "whole parent")) + f"; features via {attach}"
+    # old-style to_rich_dict carries the annotation db; new-style documents that it does not
+    check_roundtrips(acc, f"{impl} annotated sequence", cls, seq, observe_annotated(impl, impl == "old"), case, nontrivial=bool(case["history"]))
+
+
+def annot_explore(spec, acc):
+    impl, off, attach, L, depth, steps = spec["impl"], spec["off"], spec["attach"], spec["L"], spec["depth"], spec["steps"]
+    parent = c4.PARENT[:L]
+    feats = [f for i, f in enumerate(c4.feature_lattice(L)) if i % spec["fchunks"] == spec["fchunk"]]
+    root = c4.make_root(impl, parent, off, feats, attach)
+    v0 = c4.V(range(L))
+    base = {"part": "annotated", "impl": impl, "off": off, "attach": attach, "L": L, "fchunk": [spec["fchunk"], spec["fchunks"]]}
+    seen = {v0.key()}
+    acc.state(0)
+    check_annot_state(root, v0, impl, attach, dict(base, history=[]), acc)
+    frontier = [(root, v0, [])]
+    for d in range(1, depth + 1):
+        nxt = []
+        for seq, v, hist in frontier:
+            for op in c4.view_alphabet(v, steps):
+                acc.transitions += 1
+                v2 = v.apply(op)
+                try:
+                    s2 = c4.real_apply(seq, op)
+                except Exception:  # noqa: BLE001
+                    acc.count("states_not_entered_owning_property_disagrees")
+                    continue
+                if str(s2) != v2.string(parent):
+                    acc.count("states_not_entered_owning_property_disagrees")
+                    continue
+                if not v2.idx or v2.key() in seen:
+                    continue
+                seen.add(v2.key())
+                acc.state(d)
+                h2 = hist + [list(op)]
+                check_annot_state(s2, v2, impl, attach, dict(base, history=h2), acc)
+                if d < depth:
+                    nxt.append((s2, v2, h2))
+        frontier = nxt
+    acc.sample({"part": "annotated", "impl": impl, "offset": off, "attach": attach, "parent": parent, "features": feats[:3], "views": len(seen)}, f"annot-{impl}")
+
+
+def observe_annot_aln(a, ch):
+    o = Obs()
+    o.add("class", lambda: type(a).__name__)
+    o.add("rows", lambda: {n: str(s) for n, s in a.to_dict().items()})
+    o.add("row features (name, biotype, reversed, map, slice)", lambda: feature_obs(a, on_alignment=False))
+    o.add("alignment features (name, biotype, reversed, map, slice)", lambda: feature_obs(a, on_alignment=True))
+    o.add("number of db records", lambda: len(a.annotation_db) if a.annotation_db is not None else 0)
+    return o
+
+
+def annot_aln_build(rows, feature):
+    from cogent3 import make_aligned_seqs
+
+    aln = make_aligned_seqs(dict(rows), moltype="dna", array_align=False)
+    if "seq" in feature:
+        aln.get_seq(feature["seq"]).add_feature(biotype="gene", name="f", spans=[tuple(feature["span"])], strand=feature["strand"])
+        aln.annotation_db = aln.get_seq(feature["seq"]).annotation_db
+    else:
+        aln.add_feature(biotype="gene", name="f", spans=[tuple(feature["on_alignment"])], on_alignment=True)
+    return aln
+
+
+def annot_aln_view(aln, view):
+    a, b, do_rc = view
+    v = aln if a is None else aln[a:b]
+    return v.rc() if do_rc else v
+
+
+def annot_aln_explore(spec, acc):
+    L = spec["L"]
+    res = ["ACRMBDWS", "SWDBMRCA"]
+    for masks in itertools.product(itertools.product((0, 1), repeat=L), repeat=2):
+        rows = {f"s{r + 1}": "".join("-" if masks[r][c] else res[r][c] for c in range(L)) for r in range(2)}
+        if any(not r.replace("-", "") for r in rows.values()):
+            continue
+        if sum(map(sum, masks)) % spec["of"] != spec["chunk"]:
+            continue
+        n1 = len(rows["s1"].replace("-", ""))
+        features = [{"seq": "s1", "span": [s, e], "strand": strand} for s in range(n1) for e in range(s + 1, n1 + 1) for strand in "+-"]
+        features += [{"on_alignment": [s, e]} for s in range(L) for e in range(s + 1, L + 1)]
+        views = [[None, None, False], [None, None, True]] + [[a, b, r] for a in range(L) for b in range(a + 1, L + 1) for r in (False, True) if (a, b) != (0, L)]
+        for feature in features:
+            for view in views:
+                case = {"part": "annotated", "aln": rows, "feature": feature, "view": view}
+                try:
+                    v = annot_aln_view(annot_aln_build(rows, feature), view)
+                except Exception:  # noqa: BLE001
+                    acc.count("states_not_entered_owning_property_disagrees")
+                    continue
+                acc.state(0 if view[0] is None and not view[2] else (2 if view[0] is not None and view[2] else 1))
+                cls = ("alignment-level feature" if "on_alignment" in feature else "row feature") + "; " + (
+                    "whole alignment" if view[0] is None and not view[2] else ("rc" if view[0] is None else ("rc of slice" if view[2] else "slice")))
+                check_roundtrips(acc, "annotated Alignment", cls, v, observe_annot_aln, case, nontrivial=view != [None, None, False])
+    acc.sample({"part": "annotated", "alignment_length": L, "features": "every span on row s1 (both strands), every column span on the alignment", "views": "whole, rc, every slice, rc of every slice"}, "annot-aln")
+
+
+def annot_shards(b):
+    out = []
+    for impl in ("old", "new"):
+        for off, attach in [(0, "add_feature")] + [(o, "attached db") for o in b["offsets"]]:
+            for fc in range(2):
+                out.append({"part": "annotated", "kind": "seq", "impl": impl, "off": off, "attach": attach, "L": b["L"], "depth": b["depth"], "steps": b["steps"], "fchunk": fc, "fchunks": 2})
+    for c in range(4):
+        out.append({"part": "annotated", "kind": "aln", "L": b["aln_len"], "chunk": c, "of": 4})
+    return out
+
+
+def annot_run(spec, acc):
+    if spec["kind"] == "seq":
+        annot_explore(spec, acc)
+    else:
+        annot_aln_explore(spec, acc)
+
+
+def annot_replay(case, acc):
+    if "aln" in case:
+        v = annot_aln_view(annot_aln_build(case["aln"], case["feature"]), case["view"])
+        view, feature = case["view"], case["feature"]
+        cls = ("alignment-level feature" if "on_alignment" in feature else "row feature") + "; " + (
+            "whole alignment" if view[0] is None and not view[2] else ("rc" if view[0] is None else ("rc of slice" if view[2] else "slice")))
+        check_roundtrips(acc, "annotated Alignment", cls, v, observe_annot_aln, {k: case[k] for k in ("part", "aln", "feature", "view")})
+        return
+    L = case["L"]
+    parent = c4.PARENT[:L]
+    feats = [f for i, f in enumerate(c4.feature_lattice(L)) if i % case["fchunk"][1] == case["fchunk"][0]]
+    seq = c4.make_root(case["impl"], parent, case["off"], feats, case["attach"])
+    v = c4.V(range(L))
+    for op in case["history"]:
+        op = tuple(op)
+        seq, v = c4.real_apply(seq, op), v.apply(op)
+    check_annot_state(seq, v, case["impl"], case["attach"], {k: case[k] for k in ("part", "impl", "off", "attach", "L", "fchunk", "history")}, acc)
+
+
+# ============================================================================= part: annotation dbs (C17 state graph)
+from vf.props import c17_annotation_db as c17  # noqa: E402
+
+
+def observe_db(db, ch):
+    o = Obs()
+    got = c17.call(c17.observe, db)
+    if got[0] != "ok":
+        o.append(("records", {"raised": got[1]}, None))
+        return o
+    for k, v in got[1].items():
+        o.append((k if k in ("class", "len") else ("records" if k == "rows" else f"query answers ({k})"), plain(v), None))
+    return o
+
+
+def db_ops(cls):
+    return [op for op in c17.history_ops(cls) if op[0] not in ("deepcopy", "pickle", "rich_dict", "json", "init_db")]
+
+
+def check_db_state(cls, init_name, hist, acc):
+    init = c17.initial_dbs(cls)[init_name]
+    r = c17.replay_history(cls, init, [tuple(tuple(x) if isinstance(x, list) else x for x in op) if not isinstance(op, tuple) else op for op in hist])
+    if r[0] != "ok":
+        return None
+    db = r[1]
+    hidden = c17.hidden_of(db)
+    klass = f"{cls} db, " + ("file-backed" if hidden[0] == "file" else "in memory") + (", open transaction" if hidden[1] else "") + (
+        "" if not hist else ", after " + "/".join(sorted({op[0] for op in hist})))
+    case = {"part": "annotation_dbs", "cls": cls, "init": init_name, "history": [jsonable_op(op) for op in hist]}
+    check_roundtrips(acc, "annotation db", klass, db, observe_db, case, nontrivial=bool(len(db)), idempotent=True)
+    return db
+
+
+def jsonable_op(op):
+    return [x if not isinstance(x, tuple) else list(x) for x in op]
+
+
+def dbs_explore(spec, acc):
+    cls, init_name, depth = spec["cls"], spec["init"], spec["depth"]
+    init = c17.initial_dbs(cls)[init_name]
+    s0 = (cls, init, None)
+    seen = set()
+    frontier = [(s0, [])]
+    for d in range(0, depth + 1):
+        nxt = []
+        for state, hist in frontier:
+            if d > 0:
+                acc.transitions += 1
+            acc.traces += 1
+            db = check_db_state(cls, init_name, hist, acc) if state[0] != "err" else None
+            if db is None:
+                continue
+            k = c17.canon(state, c17.hidden_of(db))
+            if k in seen:
+                continue
+            seen.add(k)
+            acc.state(d)
+            if d < depth:
+                for op in db_ops(state[0]):
+                    m = c17.model_apply(state, op)
+                    if m[0] == "err" or len(m[1]) > 4:
+                        continue
+                    nxt.append((m, hist + [op]))
+        frontier = nxt
+    acc.sample({"part": "annotation_dbs", "class": cls, "initial": init_name, "depth": depth, "states": len(seen)}, "annotation_dbs")
+
+
+def dbs_shards(b):
+    return [{"part": "annotation_dbs", "cls": cls, "init": init, "depth": b["depth"]} for cls in c17.CLASSES for init in c17.initial_dbs(cls)]
+
+
+def dbs_replay(case, acc):
+    def un(op):
+        out = []
+        for x in op:
+            out.append(x)
+        return tuple(out)
+
+    check_db_state(case["cls"], case["init"], [un(op) for op in case["history"]], acc)
+
+
+# ============================================================================= part: maps (C08 input space + derived states)
+from vf.props import c08_maps as c8  # noqa: E402
+
+
+def observe_indel(m, ch):
+    o = Obs()
+    o.add("class", lambda: type(m).__name__)
+    o.add("gap layout", lambda: c8.render(m))
+    o.add("len", lambda: len(m))
+    o.add("parent_length", lambda: int(m.parent_length))
+    o.add("gap_pos", lambda: m.gap_pos.tolist())
+    o.add("cum_gap_lengths", lambda: m.cum_gap_lengths.tolist())
+    o.add("termini_unknown", lambda: bool(m.termini_unknown))
+    o.add("get_gap_coordinates", lambda: m.get_gap_coordinates())
+    return o
+
+
+def observe_fmap(m, ch):
+    o = Obs()
+    o.add("class", lambda: type(m).__name__)
+    o.add("positions", lambda: c8.table_of_map(m))
+    o.add("len", lambda: len(m))
+    o.add("parent_length", lambda: int(m.parent_length))
+    o.add("spans", lambda: [[type(sp).__name__, bool(sp.lost), len(sp)] + ([int(sp.start), int(sp.end), bool(sp.reverse)] if not sp.lost else []) for sp in m.spans])
+    o.add("get_coordinates", lambda: [list(map(int, c)) for c in m.get_coordinates()])
+    return o
+
+
+def indel_states(s):
+    """(label, map) - the map of s and every map derived from it by one operation"""
+    m = c8.build_map(s)
+    yield ["construct"], m
+    L = len(s)
+    for a in range(L + 1):
+        for b in range(a, L + 1):
+            if (a, b) != (0, L):
+                yield ["slice", a, b], m[a:b]
+    yield ["nucleic_reversed"], m.nucleic_reversed()
+    yield ["with_termini_unknown"], m.with_termini_unknown()
+    yield ["mul", 3], m * 3
+    if L:
+        yield ["joined", [[0, 1], [L - 1, L]]], m.joined_segments([(0, 1), (L - 1, L)])
+
+
+def fmap_states(desc, P):
+    fm = c8.make_fmap(desc, P)
+    yield ["construct"], fm
+    n = len(fm)
+    for a in range(n + 1):
+        for b in range(a, n + 1):
+            if (a, b) != (0, n):
+                yield ["slice", a, b], fm[a:b]
+    for name in ("nucleic_reversed", "covered", "gaps", "without_gaps", "shadow", "inverse", "get_covering_span"):
+        try:
+            yield [name], getattr(fm, name)()
+        except Exception:  # noqa: BLE001 - not defined for this map (C08's subject)
+            continue
+
+
+def maps_run(spec, acc):
+    if spec["kind"] == "indel":
+        for i, s in enumerate(c8.mask_strings(spec["n"])):
+            if i % spec["of"] != spec["chunk"]:
+                continue
+            seen = set()
+            for label, m in indel_states(s):
+                k = (m.gap_pos.tolist().__repr__(), m.cum_gap_lengths.tolist().__repr__(), int(m.parent_length), bool(m.termini_unknown))
+                acc.transitions += label != ["construct"]
+                if k in seen:
+                    continue
+                seen.add(k)
+                acc.state(0 if label == ["construct"] else 1)
+                cls = "as constructed" if label == ["construct"] else f"after {label[0]}"
+                check_roundtrips(acc, "IndelMap", cls, m, observe_indel, {"part": "maps", "kind": "indel", "s": s, "op": label},
+                                 nontrivial="-" in s and bool(c8.degap(s)))
+        acc.sample({"part": "maps", "kind": "IndelMap", "length": spec["n"], "states": "construct, every slice, reversal, termini unknown, x3, joined segments"}, "maps-indel")
+    else:
+        P, k = spec["P"], spec["k"]
+        for i, desc in enumerate(itertools.product(c8.all_spans(P), repeat=k)):
+            if i % spec["of"] != spec["chunk"]:
+                continue
+            seen = set()
+            desc = [list(d) for d in desc]
+            for label, fm in fmap_states(desc, P):
+                key = repr([[bool(sp.lost), len(sp)] + ([int(sp.start), int(sp.end), bool(sp.reverse)] if not sp.lost else []) for sp in fm.spans]) + str(fm.parent_length)
+                acc.transitions += label != ["construct"]
+                if key in seen:
+                    continue
+                seen.add(key)
+                acc.state(0 if label == ["construct"] else 1)
+                cls = "as constructed" if label == ["construct"] else f"after {label[0]}"
+                check_roundtrips(acc, "FeatureMap", cls, fm, observe_fmap, {"part": "maps", "kind": "fmap", "desc": desc, "P": P, "op": label},
+                                 nontrivial=len(desc) > 1)
+        acc.sample({"part": "maps", "kind": "FeatureMap", "parent_length": P, "spans": k}, "maps-fmap")
+
+
+def maps_shards(b):
+    out = []
+    for n in range(0, b["indel_len"] + 1):
+        nchunks = 1 if n < 5 else (4 if n < 7 else 16)
+        for c in range(nchunks):
+            out.append({"part": "maps", "kind": "indel", "n": n, "chunk": c, "of": nchunks})
+    for P in range(1, b["fmap_parent"] + 1):
+        for k in range(0, b["fmap_spans"] + 1):
+            nchunks = 1 if k < 2 else 4
+            for c in range(nchunks):
+                out.append({"part": "maps", "kind": "fmap", "P": P, "k": k, "chunk": c, "of": nchunks})
+    return out
+
+
+def maps_replay(case, acc):
+    if case["kind"] == "indel":
+        for label, m in indel_states(case["s"]):
+            if label == case["op"]:
+                cls = "as constructed" if label == ["construct"] else f"after {label[0]}"
+                check_roundtrips(acc, "IndelMap", cls, m, observe_indel, {k: case[k] for k in ("part", "kind", "s", "op")})
+                return
+    else:
+        for label, fm in fmap_states(case["desc"], case["P"]):
+            if label == case["op"]:
+                cls = "as constructed" if label == ["construct"] else f"after {label[0]}"
+                check_roundtrips(acc, "FeatureMap", cls, fm, observe_fmap, {k: case[k] for k in ("part", "kind", "desc", "P", "op")})
+                return
+
+
+# ============================================================================= part: trees (shapes and operations of C09)
+from vf.models import treegraph as tg  # noqa: E402
+from vf.props import c09_trees as c9  # noqa: E402
+
+
+def tree_channels_extra(t):
+    from cogent3 import make_tree
+
+    return [("newick", lambda x: make_tree(x.get_newick(with_distances=True, with_node_names=True)))]
+
+
+def _clades(t):
+    """[sorted tips below, node] for every node, root first"""
+    out = []
+
+    def walk(n):
+        below = [n.name] if not n.children else sorted(x for c in n.children for x in walk(c))
+        out.append((below, n))
+        return below
+
+    walk(t)
+    return out[::-1]
+
+
+def _user_names_kept(want, got):
+    """every internal node the user named (name_loaded) keeps its name on the node with the same tips below it;
+    names the library generates for unnamed nodes (edge.N) are free"""
+    if not isinstance(want, list) or not isinstance(got, list):
+        return want == got
+    g = {}
+    for tips, name, _ in got:
+        g.setdefault(json.dumps(tips), []).append(name)  # nodes with one child share their tips
+    return all(name in g.get(json.dumps(tips), []) for tips, name, loaded in want if loaded and name is not None)
+
+
+def observe_tree(t, ch):
+    o = Obs()
+    model = None
+    try:
+        model = c9.from_real(t)
+    except Exception:  # noqa: BLE001
+        pass
+    o.add("class", lambda: type(t).__name__)
+    o.add("tip names", lambda: sorted(tg.tips(model)))
+    o.add("tip order", lambda: list(tg.tips(model)))
+    o.add("path lengths", lambda: sorted([list(k) if isinstance(k, tuple) else k, v] for k, v in tg.path_sums(model).items()))
+    o.add("splits", lambda: tg.splits_jsonable(tg.splits(model)))
+    o.add("names of user-named internal nodes", lambda: [[tips, n.name, bool(n.name_loaded)] for tips, n in _clades(t) if n.children and n.parent is not None], tol=_user_names_kept)
+    o.add("edge lengths by clade", lambda: [[tips, n.length] for tips, n in _clades(t) if n.parent is not None])
+    if ch != "newick":
+        o.add("other edge params by clade", lambda: [[tips, sorted((str(k), plain(v)) for k, v in n.params.items() if v is not None and k != "length")] for tips, n in _clades(t)])
+    return o
+
+
+def tree_ops(model):
+    ops = []
+    tips = tg.tips(model)
+    internal = [n[0] for n in tg.nodes(model)[1:] if n[2] and n[0] is not None]
+    ops.append(["unrooted"])
+    for name in tips:
+        ops.append(["rooted_with_tip", name])
+    for name in internal:
+        ops.append(["rooted_at", name])
+    for r in range(2, len(tips)):
+        for S in itertools.combinations(tips, r):
+            ops.append(["subtree", list(S), False, False, False])
+    ops.append(["midpoint"])
+    ops.append(["bifurcating"])
+    ops.append(["sorted", tips[::-1]])
+    return ops
+
+
+def tree_class(model, hist):
+    names = [n[0] for n in tg.nodes(model)][1:]
+    f = []
+    if any(x is None for x in names):
+        f.append("node without a name")
+    named = [x for x in names if x is not None]
+    if len(set(named)) != len(named):
+        f.append("duplicate node names")
+    return ", ".join(f) or "all nodes uniquely named"
+
+
+def check_tree_state(t, init, hist, acc):
+    model = c9.from_real(t)
+    case = {"part": "trees", "init": tg.to_jsonable(init), "history": hist}
+    klass = tree_class(model, hist)
+    check_roundtrips(acc, "PhyloNode", klass, t, observe_tree, case, nontrivial=len(tg.tips(model)) >= 3)
+    # newick text as a serialisation channel of its own
+    from cogent3 import make_tree
+
+    acc.case(dict(case, channel="newick"), nontrivial=len(tg.tips(model)) >= 3)
+    acc.transitions += 1
+    want = observe_tree(t, "newick")
+    try:
+        r = make_tree(t.get_newick(with_distances=True, with_node_names=True))
+    except Exception as e:  # noqa: BLE001
+        acc.fail(f"PhyloNode: newick round trip raised {type(e).__name__} [{klass}]", dict(case, channel="newick"), {"error": str(e)[:300]})
+        return
+    diff = first_difference(want, observe_tree(r, "newick"))
+    if diff:
+        acc.fail(f"PhyloNode: newick round trip: {diff[0]} differs [{klass}]", dict(case, channel="newick"), {"observable": diff[0], "got": diff[1], "want": diff[2]})
+    acc.outcome(("tree", "newick", bool(diff)))
+
+
+def trees_build(init):
+    from cogent3 import make_tree
+
+    return make_tree(tg.newick(init))
+
+
+def trees_explore(spec, acc):
+    shape = tg.from_jsonable(spec["shape"]) if False else spec["shape"]
+    init = c9.initial_model(_tuplify(shape), spec["scheme"])
+    t0 = trees_build(init)
+    seen = {c9.real_key(t0)}
+    acc.state(0)
+    check_tree_state(t0, init, [], acc)
+    frontier = [(t0, [])]
+    for d in range(1, spec["depth"] + 1):
+        nxt = []
+        for t, hist in frontier:
+            model = c9.from_real(t)
+            for op in tree_ops(model):
+                acc.transitions += 1
+                acc.traces += 1
+                try:
+                    # operations documented to return new trees; rebuilt from the history so the receiver is never shared
+                    t2 = c9.apply_real(trees_rebuild(init, hist), op)
+                    c9.from_real(t2)
+                except Exception:  # noqa: BLE001 - what the operation does is C09's subject
+                    acc.count("states_not_entered_owning_property_disagrees")
+                    continue
+                k = c9.real_key(t2)
+                if k in seen:
+                    continue
+                seen.add(k)
+                acc.state(d)
+                h2 = hist + [op]
+                check_tree_state(t2, init, h2, acc)
+                if d < spec["depth"]:
+                    nxt.append((t2, h2))
+        frontier = nxt
+    acc.sample({"part": "trees", "newick": tg.newick(init), "depth": spec["depth"], "states": len(seen)}, "trees")
+
+
+def trees_rebuild(init, hist):
+    t = trees_build(init)
+    for op in hist:
+        t = c9.apply_real(t, op)
+    return t
+
+
+def _tuplify(x):
+    return tuple(_tuplify(v) for v in x)
+
+
+def _listify(x):
+    return [_listify(v) for v in x]
+
+
+def trees_shards(b):
+    out = []
+    for n in range(2, b["max_tips"] + 1):
+        for shape in tg.shapes(n):
+            for scheme in ("pow2-named", "ones-unnamed"):
+                out.append({"part": "trees", "shape": _listify(shape), "scheme": scheme, "depth": b["depth"], "tips": n})
+    out.sort(key=lambda s: -s["tips"])
+    return out
+
+
+def trees_replay(case, acc):
+    init = tg.from_jsonable(case["init"])
+    t = trees_rebuild(init, case["history"])
+    check_tree_state(t, init, case["history"], acc)
+
+
+# ============================================================================= part: likelihood functions (C07 controller histories + per-model states)
+TREE3 = "(a:0.1,b:0.2,c:0.3)"
+NT3 = {"a": "ACGTACGTTACG", "b": "ACGTACGCTACA", "c": "ATGTACGTCACG"}
+NT3B = {"a": "ACGTAAGTTACG", "b": "ACGTACGCTTCA", "c": "ATGTACGTCACG"}
+CODON3 = {"a": "ATGGCTCGTAAC", "b": "ATGGCCCGTAAT", "c": "ATGGCTCGGAAC"}
+PROT3 = {"a": "MARNDCQEGH", "b": "MARNDCQEGW", "c": "MSRNDCKEGH"}
+
+
+def _stats_dict(lf):
+    out = {}
+    for t in lf.get_statistics(with_motif_probs=False, with_titles=True):
+        out[str(t.title)] = [list(t.header)] + [[plain(v) for v in row] for row in t.to_list()]
+    return out
+
+
+def _rules(lf):
+    rules = []
+    for r in lf.get_param_rules():
+        r = dict(r)
+        for k in ("edges", "loci", "bins"):
+            if isinstance(r.get(k), (list, tuple)):
+                r[k] = sorted(r[k])
+        rules.append(plain(r))
+    return sorted(rules, key=lambda r: json.dumps(r, sort_keys=True, default=repr))
+
+
+def _mprobs(lf):
+    mp = lf.get_motif_probs()
+    if isinstance(mp, dict):
+        return {k: v.to_dict() for k, v in mp.items()}
+    return mp.to_dict()
+
+
+def observe_lf(lf, ch):
+    o = Obs()
+    o.add("class", lambda: type(lf).__name__)
+    o.add("lnL", lambda: float(lf.get_log_likelihood()), tol=LNL_TOL)
+    o.add("nfp", lambda: int(lf.get_num_free_params()))
+    o.add("name", lambda: lf.get_name())
+    o.add("motif probs", lambda: _mprobs(lf), tol=LNL_TOL)
+    o.add("parameter values (get_statistics)", lambda: _stats_dict(lf), tol=LNL_TOL)
+    o.add("parameter rules", lambda: _rules(lf), tol=LNL_TOL)
+    o.add("tree tips and edge names", lambda: [sorted(lf.tree.get_tip_names()), sorted(str(e.name) for e in lf.tree.get_edge_vector())])
+    o.add("alignment", lambda: _aln_rows(lf))
+    return o
+
+
+def _aln_rows(lf):
+    defn = lf.defn_for["alignment"]
+    if len(defn.index) == 1:
+        a = lf.get_param_value("alignment")
+        return {n: str(s) for n, s in a.to_dict().items()}
+    return {r["locus"]: {n: str(s) for n, s in r["value"].to_dict().items()} for r in defn.get_param_rules()}
+
+
+def lf_key(lf):
+    d = lf.to_rich_dict()
+    return strip_version(d)
+
+
+def lf_hist_class(hist):
+    if not hist:
+        return "as constructed"
+    kinds = set()
+    for op in hist:
+        ops = op[1:] if op[0] == "postponed" else [op]
+        for x in ops:
+            kinds.add(x[0] if x[0] != "rule" else f"rule {x[1]}")
+    return "after " + "/".join(sorted(kinds))
+
+
+def lf_hist_build(hist, reduced=True):
+    from vf.props import c07_recalc as c7
+
+    sysm = c7.LfSystem({"reduced": reduced})
+    lf = sysm.fresh()
+    for op in hist:
+        if sysm.apply(lf, op)[0] != "ok":
+            return None
+    return lf
+
+
+def lf_hist_explore(spec, acc):
+    from vf.props import c07_recalc as c7
+
+    reduced = spec["alphabet"] == "reduced"
+    ops = [op for op in c7.lf_ops(reduced=reduced)]
+    first = [ops[i] for i in range(len(ops)) if i % spec["of"] == spec["chunk"]]
+    seen = set()
+
+    def visit(hist, d):
+        acc.traces += 1
+        lf = lf_hist_build(hist, reduced)
+        if lf is None:
+            acc.count("histories_refused_by_the_controller")
+            return False
+        try:
+            k = lf_key(lf)
+        except Exception as e:  # noqa: BLE001
+            acc.fail(f"likelihood function: to_rich_dict raised {type(e).__name__} [{lf_hist_class(hist)}]", {"part": "lf", "kind": "history", "history": hist}, {"error": str(e)[:300]})
+            return False
+        if k in seen:
+            return False
+        seen.add(k)
+        acc.state(d)
+        check_roundtrips(acc, "likelihood function", lf_hist_class(hist), lf, observe_lf, {"part": "lf", "kind": "history", "history": hist, "alphabet": spec["alphabet"]}, nontrivial=bool(hist))
+        return True
+
+    if spec["chunk"] == 0:
+        visit([], 0)
+    for op in first:
+        acc.transitions += 1
+        if not visit([op], 1):
+            continue
+        if spec["depth"] >= 2:
+            for op2 in ops:
+                acc.transitions += 1
+                visit([op, op2], 2)
+    acc.sample({"part": "lf", "model": "HKY85", "first operations": first[:3], "depth": spec["depth"], "states": len(seen)}, "lf-history")
+
+
+def model_data(name):
+    """(alignment rows, moltype) suited to the model"""
+    from cogent3 import get_model
+
+    sm = get_model(name)
+    mol = sm.moltype.label if hasattr(sm, "moltype") else sm.get_alphabet().moltype.label
+    wl = sm.get_word_length() if hasattr(sm, "get_word_length") else 1
+    if mol == "protein":
+        return PROT3, "protein"
+    if wl == 3:
+        return CODON3, "dna"
+    return NT3, "dna"
+
+
+LF_STATES = ("default", "named", "optimised", "independent", "constant length", "motif probs set")
+
+
+def lf_static_build(name, state):
+    from cogent3 import get_model, make_aligned_seqs, make_tree
+
+    kw = {}
+    if state == "gamma bins":
+        kw = dict(ordered_param="rate", distribution="gamma")
+    sm = get_model(name, **kw)
+    rows, mol = model_data(name)
+    tree = make_tree(TREE3)
+    if state == "two loci":
+        lf = sm.make_likelihood_function(tree, loci=["l1", "l2"])
+        lf.set_alignment([make_aligned_seqs(NT3, moltype="dna"), make_aligned_seqs(NT3B, moltype="dna")])
+        lf.set_param_rule("kappa", loci=["l1"], init=3.0)
+        return lf
+    lf = sm.make_likelihood_function(tree, bins=2) if state == "gamma bins" else sm.make_likelihood_function(tree)
+    lf.set_alignment(make_aligned_seqs(rows, moltype=mol, info={"source": "mem"}))
+    if state == "gamma bins":
+        lf.set_param_rule("rate_shape", init=0.7)
+    elif state == "named":
+        lf.set_name("my-lf")
+    elif state == "optimised":
+        lf.optimise(local=True, max_evaluations=5, limit_action="ignore", show_progress=False)
+    elif state == "independent":
+        pars = [p for p in lf.get_param_names() if p not in ("length", "mprobs", "psubs")]
+        if not pars:
+            return None
+        lf.set_param_rule(pars[0], is_independent=True)
+        lf.set_param_rule(pars[0], edge="a", init=1.7)
+    elif state == "constant length":
+        if "length" not in lf.get_param_names():
+            return None
+        lf.set_param_rule("length", edges=["a", "b"], is_constant=True, value=0.25)
+        lf.set_param_rule("length", edge="c", init=0.6, upper=5.0)
+    elif state == "motif probs set":
+        mp = lf.get_motif_probs().to_dict()
+        keys = sorted(mp)
+        w = {k: 1.0 + (i % 3) for i, k in enumerate(keys)}
+        tot = sum(w.values())
+        lf.set_motif_probs({k: v / tot for k, v in w.items()})
+    return lf
+
+
+def lf_static_run(spec, acc):
+    name = spec["model"]
+    states = list(LF_STATES) + (["gamma bins", "two loci"] if name == "HKY85" else [])
+    for state in states:
+        acc.traces += 1
+        case = {"part": "lf", "kind": "model", "model": name, "state": state}
+        try:
+            lf = lf_static_build(name, state)
+        except Exception as e:  # noqa: BLE001 - building the state is not this property's subject
+            acc.count("lf_states_not_constructible")
+            acc.notes.setdefault("lf_states_not_constructible", []).append(f"{name}/{state}: {type(e).__name__}")
+            continue
+        if lf is None:
+            continue
+        acc.state(0 if state == "default" else 1)
+        family = model_family(name)
+        check_roundtrips(acc, "likelihood function", f"{family} model, {state}", lf, observe_lf, case, nontrivial=state != "default")
+    acc.sample({"part": "lf", "model": name, "states": states}, "lf-model")
+
+
+def model_family(name):
+    from cogent3 import get_model
+
+    sm = get_model(name)
+    cls = type(sm).__name__
+    return {"TimeReversibleNucleotide": "nucleotide", "Nucleotide": "nucleotide", "TimeReversibleCodon": "codon", "Codon": "codon",
+            "TimeReversibleProtein": "protein", "EmpiricalProteinMatrix": "empirical protein", "DiscreteSubstitutionModel": "discrete-time",
+            "NonReversibleNucleotide": "non-reversible nucleotide", "NonReversibleCodon": "non-reversible codon",
+            "StrandSymmetric": "strand-symmetric nucleotide"}.get(cls, cls)
+
+
+def all_model_names():
+    from cogent3 import available_models
+
+    return [str(x) for x in available_models().to_list("Abbreviation")]
+
+
+def lf_shards(b):
+    out = []
+    nchunks = 8 if b["depth"] < 2 else 16
+    for c in range(nchunks):
+        out.append({"part": "lf", "kind": "history", "alphabet": b["alphabet"], "depth": b["depth"], "chunk": c, "of": nchunks})
+    names = all_model_names() if b["models"] == "all" else b["models"]
+    for name in names:
+        out.append({"part": "lf", "kind": "model", "model": name})
+    return out
+
+
+def lf_run(spec, acc):
+    if spec["kind"] == "history":
+        lf_hist_explore(spec, acc)
+    else:
+        lf_static_run(spec, acc)
+
+
+def lf_replay(case, acc):
+    if case["kind"] == "history":
+        lf = lf_hist_build(case["history"], case.get("alphabet", "reduced") == "reduced")
+        if lf is not None:
+            check_roundtrips(acc, "likelihood function", lf_hist_class(case["history"]), lf, observe_lf, {k: case[k] for k in ("part", "kind", "history") if k in case})
+    else:
+        lf = lf_static_build(case["model"], case["state"])
+        if lf is not None:
+            check_roundtrips(acc, "likelihood function", f"{model_family(case['model'])} model, {case['state']}", lf, observe_lf, {k: case[k] for k in ("part", "kind", "model", "state")})
+
+
+# ============================================================================= part: static registry list
+def observe_old_alphabet(a, ch):
+    o = Obs()
+    o.add("class", lambda: type(a).__name__)
+    o.add("motifs", lambda: [str(m) if not isinstance(m, (str, int)) else m for m in a])
+    o.add("moltype", lambda: a.moltype.label if getattr(a, "moltype", None) is not None else None)
+    o.add("motif length", lambda: a.get_motif_len())
+    o.add("gap motif", lambda: a.get_gap_motif() if hasattr(a, "get_gap_motif") else None)
+    o.add("to_indices(first three motifs)", lambda: [int(i) for i in a.to_indices(list(a)[:3])])
+    return o
+
+
+def observe_new_alphabet(a, ch):
+    o = Obs()
+    o.add("class", lambda: type(a).__name__)
+    o.add("motifs", lambda: list(a))
+    o.add("len", lambda: len(a))
+    o.add("motif length", lambda: a.motif_len if hasattr(a, "motif_len") else a.motif_length)
+    o.add("gap_char, missing_char", lambda: [a.gap_char, a.missing_char])
+    o.add("gap_index, missing_index", lambda: [a.gap_index, a.missing_index])
+    o.add("num_canonical", lambda: a.num_canonical)
+    o.add("moltype", lambda: getattr(getattr(a, "moltype", None), "label", None))
+    o.add("to_indices(first two motifs joined)", lambda: a.to_indices("".join(str(m) for m in list(a)[:2])).tolist())
+    return o
+
+
+def observe_old_moltype(m, ch):
+    o = Obs()
+    o.add("class", lambda: type(m).__name__)
+    o.add("label", lambda: m.label)
+    o.add("alphabet", lambda: list(m.alphabet))
+    o.add("degen gapped alphabet", lambda: list(m.alphabets.degen_gapped))
+    o.add("ambiguities", lambda: {k: sorted(v) for k, v in m.ambiguities.items()})
+    o.add("complements", lambda: dict(m.complements) if m.complements else {})
+    o.add("gaps, missing", lambda: [sorted(m.gaps), m.missing])
+    o.add("make_seq('ACG'): class, str, moltype", lambda: [type(m.make_seq("ACG")).__name__, str(m.make_seq("ACG")), m.make_seq("ACG").moltype.label])
+    return o
+
+
+def observe_new_moltype(m, ch):
+    o = Obs()
+    o.add("class", lambda: type(m).__name__)
+    o.add("label", lambda: m.label)
+    o.add("alphabet", lambda: list(m.alphabet))
+    o.add("all alphabets", lambda: [list(a) for a in m.iter_alphabets()])
+    o.add("ambiguities", lambda: {k: sorted(v) for k, v in (m.ambiguities or {}).items()})
+    o.add("complements", lambda: dict(m.complements) if m.complements else {})
+    o.add("gap, missing", lambda: [m.gap, m.missing])
+    o.add("make_seq('ACG'): class, str, moltype", lambda: [type(m.make_seq(seq="ACG")).__name__, str(m.make_seq(seq="ACG")), m.make_seq(seq="ACG").moltype.label])
+    return o
+
+
+ALL_CODONS = "".join(a + b + c for a in "TCAG" for b in "TCAG" for c in "TCAG")
+
+
+def observe_code(g, ch):
+    o = Obs()
+    o.add("class", lambda: type(g).__name__)
+    o.add("ID", lambda: g.ID)
+    o.add("name", lambda: g.name)
+    o.add("translate(all 64 codons)", lambda: str(g.translate(ALL_CODONS)))
+    o.add("start codons", lambda: sorted(g.start_codons if not isinstance(g.start_codons, dict) else g.start_codons))
+    o.add("sense codons", lambda: sorted(g.sense_codons))
+    o.add("is_stop('TAA'), is_stop('TGA')", lambda: [bool(g.is_stop("TAA")), bool(g.is_stop("TGA"))])
+    o.add("codon alphabet", lambda: [str(c) for c in g.get_alphabet()])
+    return o
+
+
+def observe_dictarray(d, ch):
+    o = Obs()
+    o.add("class", lambda: type(d).__name__)
+    o.add("names", lambda: [list(n) for n in d.template.names])
+    o.add("array", lambda: d.array.tolist())
+    o.add("to_dict", lambda: d.to_dict())
+    o.add("dtype kind", lambda: d.array.dtype.kind)
+    return o
+
+
+def observe_dm(d, ch):
+    o = Obs()
+    o.add("class", lambda: type(d).__name__)
+    o.add("names", lambda: list(d.names))
+    o.add("distances", lambda: {f"{a}|{b}": v for (a, b), v in d.to_dict().items()})
+    o.add("array", lambda: d.array.tolist())
+    return o
+
+
+def observe_table(t, ch):
+    o = Obs()
+    o.add("class", lambda: type(t).__name__)
+    o.add("header", lambda: list(t.header))
+    o.add("shape", lambda: list(t.shape))
+    o.add("rows", lambda: t.to_list() if t.shape[0] else [])
+    o.add("cell types", lambda: [[type(plain(v)).__name__ for v in row] for row in t.to_list()] if t.shape[0] else [])
+    o.add("title, legend", lambda: [t.title, t.legend])
+    o.add("index_name", lambda: t.index_name)
+    return o
+
+
+def observe_model(name_hint=None):
+    def f(sm, ch):
+        from cogent3 import make_aligned_seqs, make_tree
+
+        o = Obs()
+        o.add("class", lambda: type(sm).__name__)
+        o.add("name", lambda: sm.name)
+        o.add("alphabet", lambda: [str(m) for m in sm.get_alphabet()])
+        o.add("moltype", lambda: sm.get_alphabet().moltype.label)
+        o.add("word length", lambda: sm.get_word_length())
+        o.add("parameter names", lambda: sorted(sm.get_param_list()))
+        o.add("rate-matrix predicates", lambda: {str(k): v.tolist() for k, v in sm.predicate_masks.items()})
+        o.add("motif-prob model", lambda: type(sm.mprob_model).__name__)
+
+        def lnl():
+            rows, mol = model_data(name_hint)
+            lf = sm.make_likelihood_function(make_tree(TREE3))
+            lf.set_alignment(make_aligned_seqs(rows, moltype=mol))
+            return [float(lf.get_log_likelihood()), int(lf.get_num_free_params()), sorted(lf.get_param_names())]
+
+        o.add("default likelihood function: lnL, nfp, parameter names", lnl, tol=LNL_TOL)
+        return o
+
+    return f
+
+
+def observe_nc(x, ch):
+    o = Obs()
+    o.add("class", lambda: type(x).__name__)
+    o.add("truth value", lambda: bool(x))
+    o.add("type", lambda: x.type)
+    o.add("origin", lambda: x.origin)
+    o.add("message", lambda: x.message)
+    o.add("source", lambda: x.source)
+    o.add("str", lambda: str(x))
+    return o
+
+
+def _result_value(v):
+    """observable content of a value stored in a result object"""
+    if hasattr(v, "get_log_likelihood"):
+        return {"lf": [(w[0], w[1]) for w in observe_lf(v, None)]}
+    if hasattr(v, "to_dict") and hasattr(v, "header"):
+        return {"table": [list(v.header), v.to_list()]}
+    if hasattr(v, "to_dict") and hasattr(v, "names") and hasattr(v, "moltype"):
+        return {"seqs": {n: str(s) for n, s in v.to_dict().items()}}
+    if hasattr(v, "template") and hasattr(v, "array"):
+        return {"dictarray": v.to_dict()}
+    if hasattr(v, "keys") and hasattr(v, "deserialised_values"):
+        return {"result": {str(k): _result_value(v[k]) for k in v}}
+    return plain(v)
+
+
+def observe_result(r, ch):
+    o = Obs()
+    if hasattr(r, "deserialised_values"):
+        try:
+            r.deserialised_values()
+        except Exception:  # noqa: BLE001 - shows up in the observations below
+            pass
+    o.add("class", lambda: type(r).__name__)
+    o.add("keys", lambda: [plain(k) for k in r])
+    o.add("source", lambda: r.source)
+    for attr in ("name", "lnL", "nfp", "DLC", "unique_Q", "LR", "df", "pvalue"):
+        if hasattr(type(r), attr) or hasattr(r, attr):
+            o.add(attr, lambda attr=attr: getattr(r, attr), tol=LNL_TOL)
+    o.add("values", lambda: {str(plain(k)): _result_value(r[k]) for k in r}, tol=LNL_TOL)
+    return o
+
+
+def _tiny_aln(kind="nt"):
+    from cogent3 import make_aligned_seqs
+
+    if kind == "codon":
+        return make_aligned_seqs(CODON3, moltype="dna", info={"source": "codon.fa"})
+    return make_aligned_seqs(NT3, moltype="dna", info={"source": "nt.fa"})
+
+
+OPT = dict(max_evaluations=5, limit_action="ignore")
+
+
+def static_items(family, b):
+    """yields (item id, what, class text, builder, observer, nontrivial)"""
+    import numpy
+
+    from cogent3 import get_app, get_model, make_aligned_seqs, make_table
+    from cogent3.app.composable import NotCompleted
+    from cogent3.core import alphabet as old_alpha
+    from cogent3.core import genetic_code as old_gc
+    from cogent3.core import moltype as old_mt
+    from cogent3.core import new_genetic_code as new_gc
+    from cogent3.core import new_moltype as new_mt
+    from cogent3.evolve.fast_distance import DistanceMatrix
+    from cogent3.util.dict_array import DictArrayTemplate
+
+    labels = ["dna", "rna", "protein", "protein_with_stop", "text", "bytes"]
+    if family == "alphabets":
+        for lab in labels:
+            m = old_mt.get_moltype(lab)
+            for kind in ("base", "degen", "gapped", "degen_gapped"):
+                yield (f"old:{lab}:{kind}", "old-style alphabet", f"{kind} character alphabet", lambda m=m, kind=kind: getattr(m.alphabets, kind), observe_old_alphabet, True)
+            if lab in ("dna", "rna", "protein"):
+                for k in (2, 3):
+                    if lab == "protein" and k == 3:
+                        continue
+                    yield (f"old:{lab}:word{k}", "old-style alphabet", "word alphabet", lambda m=m, k=k: m.alphabet.get_word_alphabet(k), observe_old_alphabet, True)
+        for i in (1, 2, 11):
+            yield (f"old:codon:{i}", "old-style alphabet", "codon alphabet of a genetic code", lambda i=i: old_gc.get_code(i).get_alphabet(), observe_old_alphabet, True)
+            yield (f"old:codon-gapped:{i}", "old-style alphabet", "codon alphabet of a genetic code", lambda i=i: old_gc.get_code(i).get_alphabet(include_gap_motif=True), observe_old_alphabet, True)
+        for lab in labels:
+            m = new_mt.get_moltype(lab)
+            for j, _ in enumerate(m.iter_alphabets()):
+                yield (f"new:{lab}:{j}", "new-style CharAlphabet", "character alphabet", lambda m=m, j=j: list(m.iter_alphabets())[j], observe_new_alphabet, True)
+            if lab in ("dna", "rna", "protein"):
+                for k in (2, 3):
+                    if lab == "protein" and k == 3:
+                        continue
+                    for gap in (False, True):
+                        yield (f"new:{lab}:kmer{k}:{gap}", "new-style KmerAlphabet", "k-mer alphabet" + (" with gap state" if gap else ""),
+                               lambda m=m, k=k, gap=gap: (m.gapped_alphabet if gap else m.alphabet).get_kmer_alphabet(k, include_gap=gap), observe_new_alphabet, True)
+        for i in (1, 2, 11):
+            for gap in (False, True):
+                yield (f"new:codon:{i}:{gap}", "new-style CodonAlphabet", "codon alphabet of a genetic code" + (" with gap state" if gap else ""),
+                       lambda i=i, gap=gap: new_gc.get_code(i).get_alphabet(include_gap=gap), observe_new_alphabet, True)
+    elif family == "moltypes":
+        for lab in labels:
+            yield (f"old:{lab}", "old-style MolType", "built-in molecular type", lambda lab=lab: old_mt.get_moltype(lab), observe_old_moltype, True)
+            yield (f"new:{lab}", "new-style MolType", "built-in molecular type", lambda lab=lab: new_mt.get_moltype(lab), observe_new_moltype, True)
+    elif family == "genetic_codes":
+        ids = [int(i) for i in old_gc.available_codes().to_list("Code ID")]
+        for i in ids:
+            yield (f"old:{i}", "old-style GeneticCode", "built-in code", lambda i=i: old_gc.get_code(i), observe_code, True)
+        ids = [int(i) for i in new_gc.available_codes().to_list("Code ID")]
+        for i in ids:
+            yield (f"new:{i}", "new-style GeneticCode", "built-in code", lambda i=i: new_gc.get_code(i), observe_code, True)
+    elif family == "dictarrays":
+        shapes = {"1d": (["a", "b", "c"],), "2d": (["a", "b"], ["x", "y", "z"]), "3d": (["a", "b"], ["x", "y"], ["p", "q"]), "int names": ([0, 1], ["x", "y"])}
+        for sname, names in shapes.items():
+            n = 1
+            for dim in names:
+                n *= len(dim)
+            for dt, vals in (("int", list(range(n))), ("float", [0.5 * i - 1 for i in range(n)]), ("float with nan", [float("nan")] + [0.25 * i for i in range(1, n)])):
+                arr = numpy.array(vals).reshape([len(d) for d in names])
+                yield (f"{sname}:{dt}", "DictArray", f"{len(names)}-dimensional, as constructed", lambda names=names, arr=arr: DictArrayTemplate(*names).wrap(arr), observe_dictarray, True)
+                if len(names) > 1:
+                    yield (f"{sname}:{dt}:row", "DictArray", f"{len(names)}-dimensional, after selecting a row", lambda names=names, arr=arr: DictArrayTemplate(*names).wrap(arr)[names[0][1]], observe_dictarray, True)
+                    yield (f"{sname}:{dt}:rows", "DictArray", f"{len(names)}-dimensional, after selecting a list of rows", lambda names=names, arr=arr: DictArrayTemplate(*names).wrap(arr)[[names[0][1], names[0][0]]], observe_dictarray, True)
+        aln = lambda: make_aligned_seqs({"a": "ACGT-", "b": "ACGAA", "c": "GCG-A"}, moltype="dna")  # noqa: E731
+        yield ("profile:counts", "MotifCountsArray", "counts_per_pos() of an alignment", lambda: aln().counts_per_pos(), observe_dictarray, True)
+        yield ("profile:freqs", "MotifFreqsArray", "counts_per_pos().to_freq_array()", lambda: aln().counts_per_pos().to_freq_array(), observe_dictarray, True)
+        yield ("profile:pssm", "PSSM", "counts_per_pos().to_pssm()", lambda: aln().counts_per_pos(allow_gap=False).to_pssm(), observe_dictarray, True)
+        yield ("counts_per_seq", "MotifCountsArray", "counts_per_seq() of an alignment", lambda: aln().counts_per_seq(), observe_dictarray, True)
+    elif family == "distance_matrices":
+        pool = ["s1", "s10", "a b", "Z"]
+        for n in range(2, b["distance_names"] + 1):
+            for names in itertools.permutations(pool, n):
+                dists = {}
+                for i, x in enumerate(names):
+                    for j, y in enumerate(names):
+                        if i < j:
+                            dists[(x, y)] = dists[(y, x)] = 2.0 ** -(i + 2 * j)
+                yield (f"{'|'.join(names)}", "DistanceMatrix", "as constructed", lambda dists=dists: DistanceMatrix(dict(dists)), observe_dm, True)
+                if n > 2:
+                    yield (f"{'|'.join(names)}:take", "DistanceMatrix", "after take_dists", lambda dists=dists, names=names: DistanceMatrix(dict(dists)).take_dists(list(names[1:])), observe_dm, True)
+                    yield (f"{'|'.join(names)}:take_negate", "DistanceMatrix", "after take_dists", lambda dists=dists, names=names: DistanceMatrix(dict(dists)).take_dists([names[0]], negate=True), observe_dm, True)
+        nan = {("a", "b"): 0.1, ("b", "a"): 0.1, ("a", "c"): float("nan"), ("c", "a"): float("nan"), ("b", "c"): 0.3, ("c", "b"): 0.3}
+        yield ("invalid", "DistanceMatrix", "with an invalid (nan) distance", lambda: DistanceMatrix(dict(nan)), observe_dm, True)
+        yield ("invalid:dropped", "DistanceMatrix", "after drop_invalid", lambda: DistanceMatrix(dict(nan)).drop_invalid(), observe_dm, True)
+        yield ("from alignment", "DistanceMatrix", "computed by Alignment.distance_matrix", lambda: make_aligned_seqs(NT3, moltype="dna").distance_matrix(calc="tn93"), observe_dm, True)
+        yield ("from alignment:hamming", "DistanceMatrix", "computed by Alignment.distance_matrix", lambda: make_aligned_seqs(NT3, moltype="dna").distance_matrix(calc="hamming"), observe_dm, True)
+    elif family == "tables":
+        from vf.props import c20_tables as c20
+
+        i = 0
+        for nrows in range(0, b["table_rows"] + 1):
+            for ncols in range(1, b["table_cols"] + 1):
+                for types, header, rows in c20.tables(c20.OPS_DOMAIN_SMALL, nrows, ncols):
+                    i += 1
+                    ident = f"{nrows}x{ncols}:{i}"
+                    mkt = lambda header=header, rows=rows, **kw: c20.mk(header, rows, **kw)  # noqa: E731
+                    yield (ident, "Table", "as constructed", mkt, observe_table, nrows > 0)
+                    if nrows == 2 and ncols == 2 and "bool" not in types:
+                        yield (ident + ":sorted", "Table", "after sorted", lambda mkt=mkt, header=header: mkt().sorted(columns=[header[-1]], reverse=[header[-1]]), observe_table, True)
+                        yield (ident + ":filtered", "Table", "after filtered", lambda mkt=mkt, header=header, rows=rows: mkt().filtered(lambda v, x=rows[0][0]: v == x, columns=header[0]), observe_table, True)
+                        yield (ident + ":get_columns", "Table", "after get_columns", lambda mkt=mkt, header=header: mkt().get_columns([header[-1]]), observe_table, True)
+                        yield (ident + ":titled", "Table", "with title, legend and index", lambda mkt=mkt, header=header, rows=rows: mkt(title="T i", legend="L,\"x\"", index_name=header[0] if rows[0][0] != rows[1][0] else None), observe_table, True)
+        yield ("missing", "Table", "with None cells", lambda: make_table(header=["a", "b"], data=[[1, None], [None, "x"]]), observe_table, True)
+        yield ("nan", "Table", "with nan cells", lambda: make_table(header=["a", "b"], data=[[1.5, float("nan")], [float("nan"), 2.0]]), observe_table, True)
+        yield ("formatted", "Table", "with column formats and digits", lambda: make_table(header=["a", "b"], data=[[1.23456, 2], [3.0, 4]], digits=2, space=2, column_templates={"a": "%.1f"}), observe_table, True)
+        yield ("transposed", "Table", "after transposed", lambda: make_table(header=["k", "x", "y"], data=[["r1", 1, 2], ["r2", 3, 4]]).transposed("new", select_as_header="k"), observe_table, True)
+    elif family == "models":
+        names = all_model_names() if b["models"] == "all" else b["models"]
+        for name in names:
+            yield (name, "substitution model", f"{model_family(name)} model", lambda name=name: get_model(name), observe_model(name), True)
+        yield ("HKY85:gamma", "substitution model", "nucleotide model with rate heterogeneity", lambda: get_model("HKY85", ordered_param="rate", distribution="gamma"), observe_model("HKY85"), True)
+        yield ("GTR:recode_gaps", "substitution model", "nucleotide model with constructor options", lambda: get_model("GTR", recode_gaps=True, optimise_motif_probs=True), observe_model("GTR"), True)
+        yield ("MG94HKY:tuple", "substitution model", "codon model with constructor options", lambda: get_model("MG94HKY", optimise_motif_probs=True), observe_model("MG94HKY"), True)
+    elif family == "not_completed":
+        app = get_app("omit_degenerates", moltype="dna")
+        for typ in ("ERROR", "FAIL", "FALSE"):
+            for oname, origin in (("str", "some_app"), ("app instance", app)):
+                for mname, msg in (("plain", "something failed"), ("quotes, newline, unicode", 'x "y"\n\'z\' é')):
+                    for sname, src in (("str", "data/a.fa"), ("None", None), ("alignment with info.source", _tiny_aln())):
+                        yield (f"{typ}:{oname}:{mname}:{sname}", "NotCompleted", f"origin given as {oname}, source given as {sname}",
+                               lambda typ=typ, origin=origin, msg=msg, src=src: NotCompleted(typ, origin, msg, source=src), observe_nc, True)
+        yield ("from app", "NotCompleted", "returned by an app", lambda: get_app("take_named_seqs", "zz")(_tiny_aln()), observe_nc, True)
+        yield ("from exception", "NotCompleted", "returned by an app that raised", lambda: get_app("model", "HKY85", show_progress=False)(make_aligned_seqs({"a": "ACGT", "b": "ACGT"}, moltype="dna", info={"source": "two.fa"})), observe_nc, True)
+    elif family == "results":
+        def model_res(**kw):
+            return get_app("model", kw.pop("sm", "HKY85"), tree=TREE3, opt_args=OPT, show_progress=False, **kw)(_tiny_aln(kw.get("kind", "nt")))
+
+        yield ("model_result", "model_result", "from a nucleotide fit", lambda: model_res(), observe_result, True)
+        yield ("model_result:split_codons", "model_result", "from a split-codon fit (three likelihood functions)",
+               lambda: get_app("model", "HKY85", tree=TREE3, opt_args=OPT, show_progress=False, split_codons=True)(_tiny_aln("codon")), observe_result, True)
+        yield ("model_result:codon", "model_result", "from a codon fit", lambda: get_app("model", "MG94HKY", tree=TREE3, opt_args=OPT, show_progress=False)(_tiny_aln("codon")), observe_result, True)
+
+        def hyp():
+            null = get_app("model", "F81", tree=TREE3, opt_args=OPT, show_progress=False)
+            alt = get_app("model", "HKY85", tree=TREE3, opt_args=OPT, show_progress=False)
+            return get_app("hypothesis", null, alt)(_tiny_aln())
+
+        def coll():
+            null = get_app("model", "F81", tree=TREE3, opt_args=OPT, show_progress=False)
+            alt = get_app("model", "HKY85", tree=TREE3, opt_args=OPT, show_progress=False)
+            return get_app("model_collection", null, alt)(_tiny_aln())
+
+        yield ("hypothesis_result", "hypothesis_result", "from two nested fits", hyp, observe_result, True)
+        yield ("model_collection_result", "model_collection_result", "from two fits", coll, observe_result, True)
+        yield ("tabular_result", "tabular_result", "tabulate_stats of a model_result", lambda: get_app("tabulate_stats")(model_res()), observe_result, True)
+
+        def generic():
+            from cogent3.app.result import generic_result
+
+            r = generic_result(source="mem.fa")
+            r["number"] = 3
+            r["list"] = [1, 2.5, "x"]
+            r["dictarray"] = DictArrayTemplate(["a", "b"]).wrap([1, 2])
+            r["alignment"] = _tiny_aln()
+            r["table"] = make_table(header=["a"], data=[[1], [2]])
+            return r
+
+        yield ("generic_result", "generic_result", "holding plain values and cogent3 objects", generic, observe_result, True)
+
+        def boot():
+            null = get_app("model", "F81", tree=TREE3, opt_args=OPT, show_progress=False)
+            alt = get_app("model", "HKY85", tree=TREE3, opt_args=OPT, show_progress=False)
+            return get_app("bootstrap", get_app("hypothesis", null, alt), num_reps=1, parallel=False)(_tiny_aln())
+
+        yield ("bootstrap_result", "bootstrap_result", "one replicate", boot, observe_result, True)
+
+
+STATIC_FAMILIES = ("alphabets", "moltypes", "genetic_codes", "dictarrays", "distance_matrices", "tables", "models", "not_completed", "results")
+
+
+def static_check(item, family, acc):
+    ident, what, cls, build, observer, nontrivial = item
+    case = {"part": "static", "family": family, "item": ident}
+    try:
+        with warnings.catch_warnings():
+            warnings.simplefilter("ignore")
+            obj = build()
+    except Exception as e:  # noqa: BLE001 - constructing the object is not this property's subject
+        acc.count("static_items_not_constructible")
+        acc.notes.setdefault("static_items_not_constructible", []).append(f"{family}/{ident}: {type(e).__name__}")
+        return
+    acc.state(0)
+    check_roundtrips(acc, what, cls, obj, observer, case, nontrivial=nontrivial)
+
+
+def static_run(spec, acc):
+    b = spec["bounds"]
+    n = 0
+    for i, item in enumerate(static_items(spec["family"], b)):
+        if i % spec["of"] == spec["chunk"]:
+            static_check(item, spec["family"], acc)
+            n += 1
+    acc.sample({"part": "static", "family": spec["family"], "items": n}, f"static-{spec['family']}")
+
+
+def static_shards(b):
+    out = []
+    chunks = {"tables": 8, "models": 14, "results": 8, "distance_matrices": 2, "not_completed": 2, "genetic_codes": 2, "alphabets": 2}
+    for fam in STATIC_FAMILIES:
+        n = chunks.get(fam, 1)
+        for c in range(n):
+            out.append({"part": "static", "family": fam, "chunk": c, "of": n, "bounds": b})
+    return out
+
+
+def static_replay(case, acc):
+    from vf.kernel.runner import Acc  # noqa: F401
+
+    for tier in ("thorough", "quick"):
+        for item in static_items(case["family"], bounds(tier)["static"]):
+            if item[0] == case["item"]:
+                static_check(item, case["family"], acc)
+                return
+
+
 # ============================================================================= shards / dispatch
 PARTS = {
     "views": (views_shards, views_explore, views_replay),
     "alignments": (alns_shards, alns_run, alns_replay),
+    "new_collections": (newcoll_shards, newcoll_explore, newcoll_replay),
+    "annotated": (annot_shards, annot_run, annot_replay),
+    "annotation_dbs": (dbs_shards, dbs_explore, dbs_replay),
+    "maps": (maps_shards, maps_run, maps_replay),
+    "trees": (trees_shards, trees_explore, trees_replay),
+    "lf": (lf_shards, lf_run, lf_replay),
+    "static": (static_shards, static_run, static_replay),
 }
 
 
